@@ -636,7 +636,7 @@ package rpc
 //@      gb_internal(call) == (call.upgrade.Stream == 1 || call.upgrade.Stream == 2) && implies(gb_internal(call), call.upgrade.NoResponse == 1)
 
 //@ func (*Conn).send
-//@   property C01 C02 C03 C06 C09
+//@   property C01 C02 C03 C06 C08 C09
 //@   requires sendable(conn, call)
 //@   ensures [C02] gf_tok(call) != 2 || gb_internal(call)
 //@   ensures [C04] gg_wreq() <= old(gg_wreq()) + 1
